@@ -235,6 +235,9 @@ def c09():
             variants.append(({n: n for n in nodes}, dict(zip(edges, perm))))           # permutation of the same edge ids
         variants.append(({n: "n%s" % (n,) for n in nodes}, {e: "e%s" % (e,) for e in edges}))  # strings
         variants.append(({n: 100 + i * 3 for i, n in enumerate(nodes)}, {e: 50 - i * 2 for i, e in enumerate(edges)}))  # other ints with gaps
+        scattered = rng.sample([13, 77, 255, 1000, 4096, 31, 8, 640, 90, 5000, 17, 2], len(nodes)) if len(nodes) <= 12 else None
+        if scattered:
+            variants.append((dict(zip(nodes, scattered)), {e: e for e in edges}))  # non-monotone large / small integers
         for vi, (nmap, emap) in enumerate(variants):
             K = relabel(H, nmap, emap, SEED + vi)
             tag = "%s / variant %d" % (label, vi)
@@ -292,6 +295,17 @@ def c09():
                     check(all(Aa[i, j] == Ab[pb[nmap[ia[i]]], pb[nmap[ia[j]]]] for i in ia for j in ia), "adjacency matrix invariant up to permutation", tag)
                 except Exception as e:  # noqa
                     check(False, "matrix raised", tag, repr(e))
+                for kind in ("uniform", "top-2", "top-bottom"):
+                    try:
+                        ra, rb = xgi.degree_assortativity(H, kind=kind, exact=True), xgi.degree_assortativity(K, kind=kind, exact=True)
+                        check((ra != ra and rb != rb) or abs(ra - rb) < 1e-9, "exact degree assortativity (%s) invariant" % kind, tag, (ra, rb))
+                    except Exception:
+                        pass
+                try:
+                    ra, rb = xgi.dynamical_assortativity(H), xgi.dynamical_assortativity(K)
+                    check((ra != ra and rb != rb) or abs(ra - rb) < 1e-9, "dynamical assortativity invariant", tag, (ra, rb))
+                except Exception:
+                    pass
                 try:
                     ka, kb = xgi.katz_centrality(H), xgi.katz_centrality(K)
                     check(all(abs(ka[n] - kb[nmap[n]]) < 1e-7 or (ka[n] != ka[n]) for n in nodes), "katz centrality invariant", tag, (ka, kb))
@@ -457,6 +471,11 @@ def c19():
                   "subhypergraph keeps exactly the requested edges inside the requested nodes, frozen", label, (sorted(sub.edges, key=repr), ns, es))
             sub2 = xgi.subhypergraph(H, nodes=ns, keep_isolates=False)
             check(set(sub2.nodes) == {n for n in ns if any(n in E[e] and E[e] <= ns for e in E)}, "subhypergraph(keep_isolates=False)", label)
+        if edges:
+            sub = xgi.subhypergraph(H, nodes=nodes, edges=[])
+            check(sub.num_edges == 0 and set(sub.nodes) == set(nodes), "subhypergraph with an empty edge selection keeps no edge", label)
+            sub = xgi.subhypergraph(H, nodes=[], edges=edges)
+            check(set(sub.nodes) == set() and set(sub.edges) == {e for e in edges if not E[e]}, "subhypergraph with an empty node selection", label, (list(sub.nodes), list(sub.edges)))
         Dl = H.dual()
         check(set(Dl.nodes) == set(edges) and set(Dl.edges) == set(nodes) and all(set(Dl._edge[n]) == Nn[n] for n in nodes), "dual exchanges nodes and edges", label)
         if all(Nn[n] for n in nodes) and all(E[e] for e in edges):
@@ -882,9 +901,15 @@ def c16():
         S2 = xgi.flag_complex_d2(G)
         want = {frozenset(c) for c in nx.enumerate_all_cliques(G) if 2 <= len(c) <= 3}
         check({frozenset(m) for m in S2._edge.values()} == want, "flag_complex_d2 = edges and triangles", ("flag_d2", sd))
-        Sr = xgi.random_flag_complex(7, 0.6, max_order=2, seed=sd)
-        E = {frozenset(m) for m in Sr._edge.values()}
-        check(all(frozenset(c) in E for m in E for r in range(2, len(m)) for c in itertools.combinations(m, r)), "random flag complex is downward closed", ("rflag", sd))
+        for N_, p_ in ((7, 0.6), (5, 0.0), (1, 0.5), (6, 0.15)):
+            Sr = xgi.random_flag_complex(N_, p_, max_order=2, seed=sd)
+            E = {frozenset(m) for m in Sr._edge.values()}
+            check(all(frozenset(c) in E for m in E for r in range(2, len(m)) for c in itertools.combinations(m, r)), "random flag complex is downward closed", ("rflag", N_, p_, sd))
+            check(set(Sr.nodes) == set(range(N_)), "random flag complex has exactly the requested node set", ("rflag", N_, p_, sd), list(Sr.nodes))
+            Sr2 = xgi.random_flag_complex_d2(N_, p_, seed=sd)
+            check(set(Sr2.nodes) == set(range(N_)), "random_flag_complex_d2 has exactly the requested node set", ("rflag_d2", N_, p_, sd), list(Sr2.nodes))
+        Sx = xgi.random_simplicial_complex(5, [0.0, 0.0], seed=sd)
+        check(set(Sx.nodes) == set(range(5)) and Sx.num_edges == 0, "random simplicial complex with probability 0", ("rsc0", sd))
     for N in (1, 3, 5):
         for order in (None, 1, 2):
             for mo in (None, 2):
